@@ -507,29 +507,31 @@ inductive ReadRes where
   | oom (rd : Reader)
   | outOfFuel
 
+/-- `Reader::read` from the point where the item kind is known (`rd.nextKind` has been taken). -/
+def Reader.readWithKind (cfg : Cfg) (rd : Reader) (k : Kind) (b : Buffer) (c : Cb) : ReadRes :=
+  match rd.pre k with
+  | .emit it rd' => .item it rd' b c
+  | .err e => .err e rd
+  | .proceed =>
+    match parseLoop (parseRest k) (c.measure + 1) b c with
+    | .err e => .err e rd
+    | .outOfFuel => .outOfFuel
+    | .ok fit b c =>
+      match rd.post cfg fit with
+      | .item it rd' => .item it rd' b c
+      | .finished rd' => .finished rd'
+      | .err e rd' => .err e rd'
+      | .oom rd' => .oom rd'
+
 /-- `Reader::read` -/
 def Reader.read (cfg : Cfg) (rd : Reader) (b : Buffer) (c : Cb) : ReadRes :=
-  let kindRes : LoopRes Kind := match rd.nextKind with
-    | some k => .ok k b c
-    | none => parseLoop (parseKind cfg.hasEx) (c.measure + 1) b c
-  match kindRes with
-  | .err e => .err e rd
-  | .outOfFuel => .outOfFuel
-  | .ok k b c =>
-    let rd := { rd with nextKind := none }
-    match rd.pre k with
-    | .emit it rd' => .item it rd' b c
-    | .err e => .err e rd
-    | .proceed =>
-      match parseLoop (parseRest k) (c.measure + 1) b c with
-      | .err e => .err e rd
-          | .outOfFuel => .outOfFuel
-      | .ok fit b c =>
-        match rd.post cfg fit with
-        | .item it rd' => .item it rd' b c
-        | .finished rd' => .finished rd'
-        | .err e rd' => .err e rd'
-        | .oom rd' => .oom rd'
+  match rd.nextKind with
+  | some k => Reader.readWithKind cfg { rd with nextKind := none } k b c
+  | none =>
+    match parseLoop (parseKind cfg.hasEx) (c.measure + 1) b c with
+    | .err e => .err e { rd with nextKind := none }
+    | .outOfFuel => .outOfFuel
+    | .ok k b c => Reader.readWithKind cfg { rd with nextKind := none } k b c
 
 /-! ### Running a whole stream -/
 
@@ -643,7 +645,7 @@ def preAll : Nat → Reader → Kind → List Item × PreEnd
 def interp (cfg : Cfg) (rd : Reader) : List Rec → Tail → Output
   | [], tail =>
     match tail with
-    | .afterFinish => ⟨[], .finished, rd.cidsEnd⟩   -- not reached: `Finish` ends `interp` below
+    | .afterFinish => ⟨[], .outOfFuel, rd.cidsEnd⟩   -- not reached: the `Finish` record ends `interp` below
     | .kindEnd => ⟨[], .err .unexpectedEnd, rd.cidsEnd⟩
     | .kindErr e => ⟨[], .err (.item e), rd.cidsEnd⟩
     | .outOfFuel => ⟨[], .outOfFuel, rd.cidsEnd⟩
